@@ -397,6 +397,10 @@ def dfs(acc, tier, tasks, part, parts):
             # pause/resume toggling without anything in between explores nothing new
             if schedule and c[0] in ("pause", "resume") and schedule[-1][0] in ("pause", "resume"):
                 continue
+            # quick tier: cancellation and the peer's EOF only as the last choices of a schedule (they end a task / the
+            # connection; what follows is explored by the walks and by the thorough tier)
+            if tier == "quick" and c[0] in ("cancel", "eof") and len(schedule) < limit - 2:
+                continue
             rec(schedule + [c])
 
     rec([])
